@@ -905,8 +905,7 @@ def values_for(elname, a):
         first = v[0]
         numeric_attr = a.type in ("double", "float", "int")
         if isinstance(first, tuple):
-            if a.type not in ("enum", "bool", "flags"):
-                return list(v)
+            return list(v)
         else:
             tok = first.split()[0]
             looks_num = tok.lstrip("-").replace(".", "", 1).replace("e-", "", 1).isdigit()
